@@ -491,3 +491,45 @@ Example machine_run_premises :
   wf_C16 v = true /\ bytes_of v <= ISIZE_MAX /\ v_big (v_nth 1 v) < W
   /\ run_M16 Checked v = run_C16 v.
 Proof. cbv zeta. split; [reflexivity|]. split; [vm_compute; discriminate|]. split; vm_compute; reflexivity. Qed.
+
+(** ** possible_byte_substrings (src/text.rs) with find_subsequences_of_max_size_k (src/utils.rs),
+    informational (no clause of C16 depends on it): [pbs] = an unbounded reference model of the code,
+    [mpbs] = its machine-integer model (C16_MachinePbs.v).  [find_sub vals k] / [mfind_sub p vals k] =
+    the three-way loop over items of sizes [vals] with the sum as the size function. *)
+From TU Require Import C16_MachinePbs C16_MachinePbsProofs.
+
+(** the loop, for EVERY list of item sizes whose sum and length are usize values: no operation faults,
+    the machine loop is the reference loop *)
+Theorem machine_find_sub_eq : forall p vals k, sumN vals < W -> lenN vals + 2 < W ->
+  mfind_sub p vals k = find_sub vals k.
+Proof. exact mfind_sub_ok. Qed.
+Print Assumptions machine_find_sub_eq.
+
+(** the reference returns, for every text and every [max_bytes], only triples (byte start, byte end,
+    number of characters) of non-empty ranges of whole characters with at most [max_bytes] bytes; the
+    loop ends within its fuel ([2 * len + 2] iterations) and no slice is out of range *)
+Theorem pbs_ref_spec : forall lens maxb, Pos lens -> lens <> [] ->
+  exists ts, pbs lens maxb = Ok ts /\
+    Forall (fun t => exists a b, a < b /\ b <= lenN lens /\ t = (pre lens a, pre lens b, b - a)
+                                 /\ pre lens b - pre lens a <= maxb) ts.
+Proof. exact (fun lens maxb HP HN => pbs_spec lens HP maxb HN). Qed.
+Print Assumptions pbs_ref_spec.
+
+(** the machine model is the reference in both profiles (every [max_bytes], also >= 2^64), hence never faults *)
+Theorem machine_pbs_eq : forall p lens isb maxb,
+  Pos lens -> sumN lens <= ISIZE_MAX -> (forall k, isb (pre lens k) = true) ->
+  mpbs p isb lens maxb = pbs lens maxb.
+Proof. exact (fun p lens isb maxb H1 H2 H3 => mpbs_ok p lens isb H1 H2 H3 maxb). Qed.
+Print Assumptions machine_pbs_eq.
+
+Theorem machine_pbs_run_eq : forall p v, wf_C16 v = true -> bytes_of v <= ISIZE_MAX ->
+  run_pbs p v = run_pbs_ref v.
+Proof. exact run_pbs_ok. Qed.
+Print Assumptions machine_pbs_run_eq.
+
+Example pbs_witness : pbs (lens_of mix7) 6 = Ok [(0, 6, 3); (6, 12, 3); (10, 15, 3)]
+  /\ mpbs Checked (isb_of mix7) (lens_of mix7) 6 = pbs (lens_of mix7) 6.
+Proof. split; vm_compute; reflexivity. Qed.
+Example find_sub_premises : sumN [14; 50; 10; 100] < W /\ lenN [14; 50; 10; 100] + 2 < W
+  /\ find_sub [14; 50; 10; 100] 32 = Ok [(0, 1); (2, 3)].
+Proof. split; [reflexivity|]. split; [reflexivity|]. vm_compute. reflexivity. Qed.
